@@ -303,7 +303,65 @@ class IndexInRun(Harness):
                 g.require(aeq(idx.get_index(t) * tot, wp), "C17.index!=weighted-average-of-market-prices")
 
 
+class TickRoundingInRun(Harness):
+    name = "TickRoundingInRun"
+    title = "orders sent through the real SequentialRunner to markets with different tick sizes: each on its own market's grid"
+    what_symbolic = "the submitted prices (reals in (0,100]), sides, which market each item of a submission goes to, activation order"
+    nontrivial_event = "an off-grid price was moved"
+    bounds = {"quick": "2 markets with ticks 1 and 1/4 (and 1/4 and 1), one step without matching, one agent handing in "
+                       "2 limit orders in one consultation",
+              "thorough": "same"}
+    reach = ("nontrivial", "two-markets-in-one-submission")
+    stubs = TickRounding.stubs
+    assumptions = TickRounding.assumptions + (rn.REDUCTION_NOTE,)
+    agreement_runs = 4
+
+    def cases(self, tier):
+        return [{"ticks": [1, 0.25]}, {"ticks": [0.25, 1]}]
+
+    def run(self, g, case):
+        markets = {f"M{i}": {"class": "Market", "tickSize": t, "marketPrice": 50} for i, t in enumerate(case["ticks"])}
+        st = rn.base_settings(n_agents=1, sessions=[rn.session(0, 1, True, False, maxNormalOrders=1)], markets=markets)
+        menu = {"acts": ["limit"], "vol_fixed": 1, "max_orders": 2, "real_prices": True, "price_lo": 0, "price_hi": 100}
+        import pams.market as PM
+        from .mathstub import ProxyMath
+        old_math = PM.math
+        PM.math = ProxyMath() if g.symbolic else old_math
+        try:
+            ctx = rn.make_run(g, st, menu)
+            ctx.runner._run()
+        finally:
+            PM.math = old_math
+        sim = ctx.sim
+        per_batch = {}
+        for kind, aid, lg in ctx.events:
+            if kind != "submitted":
+                continue
+            o = [x for x in ctx.own_orders[aid] if x.order_id is not None and x.market_id == lg.market_id
+                 and bool(x.order_id == lg.order_id)][0]
+            ask = ctx.snap[id(o)]
+            per_batch.setdefault((aid, lg.time), set()).add(lg.market_id)
+            t = F(sim.id2market[lg.market_id].tick_size)
+            p, q = ask["price"], lg.price
+            g.require(_is_multiple(g, q, t), "C19.accepted-price-off-grid",
+                      f"accepted price is not a multiple of the tick of market {lg.market_id}")
+            on_grid = _is_multiple(g, p, t)
+            g.require(sor(snot(on_grid), q == p), "C19.on-grid-price-changed")
+            if ask["is_buy"]:
+                g.require(sand(q <= p, p - q < t), "C19.more-aggressive", "buy price rounded upwards or by a tick or more")
+            else:
+                g.require(sand(q >= p, q - p < t), "C19.more-aggressive", "sell price rounded downwards or by a tick or more")
+            if not bool(on_grid):
+                g.note("nontrivial")
+        if any(len(v) == 2 for v in per_batch.values()):
+            g.note("two-markets-in-one-submission")
+
+
 class C19_TickRounding(TickRounding):
+    pass
+
+
+class C19_TickRoundingInRun(TickRoundingInRun):
     pass
 
 
